@@ -338,7 +338,8 @@ def regress_expected(case, nnls):
     mask = pooled_mask
     method = case['method']
     rows = [[v for v in r if v is not None] for r in data]
-    Vp = v_sub(case['n'], None, mask) if method.endswith('_cov') else None
+    # the training RDMs are pooled with the same sigma_k as the fit (whitened pooling, V reduced alike)
+    Vp = v_sub(case['n'], case['sigma'], mask) if method.endswith('_cov') else None
     y = pool_full(rows, method, 'pool', Vp)
     a = np.array([[v for v in r if v is not None] for r in A], dtype=float)
     V = None
